@@ -1181,12 +1181,14 @@ func (d *drv) singles(s *scen, in Input) {
 	// such zones cannot come out of an xsd:dateTime (RFC 3339 offsets are hh:mm)
 	off := []int{0, 3600, -7200, 19800, 5025, 59}[d.cfg.Rng.Intn(6)]
 	tm := time.Unix(d.cfg.Rng.Int63n(4e9)-1e9, d.cfg.Rng.Int63n(1e9)).In(time.FixedZone("", off))
+	farYear := []int{1, 1066, 2300, 9999}[d.cfg.Rng.Intn(4)]
+	tmFar := time.Date(farYear, 6, 15, 12, 30, 45, 123456789, time.FixedZone("", 3600)) // outside 1677..2262
 	bound := int64(math.MaxInt64)
 	if half.IsInt64() {
 		bound = half.Int64()
 	}
 	for _, v := range []any{int64(d.cfg.Rng.Int63n(bound)), -int64(d.cfg.Rng.Int63n(bound)), int(d.cfg.Rng.Intn(1000)), true, false,
-		"single ünï", tm, new(big.Int).Neg(new(big.Int).Rand(d.cfg.Rng, half)), new(big.Int).Sub(prime, big.NewInt(1))} {
+		"single ünï", tm, tmFar, new(big.Int).Neg(new(big.Int).Rand(d.cfg.Rng, half)), new(big.Int).Sub(prime, big.NewInt(1))} {
 		e, err := merklize.Options{Hasher: s.hasherOf(in.Cfg)}.NewRDFEntry(p, v)
 		if err == nil {
 			pool = append(pool, mzrun.View(e))
@@ -1549,6 +1551,11 @@ func (d *drv) craftedSpec(prime *big.Int) []CraftedEntry {
 			t := time.Unix(r.Int63n(8e9)-4e9, r.Int63n(1e9)).In(time.FixedZone("", off))
 			if r.Intn(3) == 0 {
 				t = time.Unix(r.Int63n(8e9)-4e9, 0).UTC()
+			}
+			if r.Intn(3) == 0 {
+				// instants outside the int64-nanosecond range 1677..2262
+				y := []int{1, 1066, 1600, 2300, 9999}[r.Intn(5)]
+				t = time.Date(y, time.Month(1+r.Intn(12)), 1+r.Intn(28), r.Intn(24), r.Intn(60), r.Intn(60), r.Intn(1e9), time.FixedZone("", off/60*60))
 			}
 			c.Val = t.Format(time.RFC3339Nano)
 			if off%60 != 0 {
